@@ -104,6 +104,26 @@ def check_geometry(st, env, cp, hkl, E, builtin):
         dn, _ = L.call("Crystal_dSpacing", cp, n * h, n * k, n * l)
         if xrl.relerr(dn * n, d) > 1e-13:
             return ("dspacing:scaling", dict(case, n=n), d / n, dn)
+    # the Bragg cut-off E_c = hc/(2d) is where the code changes branch: bracket it from both sides
+    Ec = env.K / (2 * d)
+    for f in (1e-9, 3e-7, 1e-5):
+        for sgn in (-1, 1):
+            Ex = Ec * (1 + sgn * f)
+            lx = env.K / Ex
+            if abs(lx / (2 * d) - 1.0) < 1e-12:
+                continue
+            st.ev()
+            tx, ex = L.call("Bragg_angle", cp, Ex, h, k, l)
+            if lx > 2 * d:
+                if ex is None or tx != 0.0:
+                    return ("bragg:no-reflection-noerror", dict(case, E=Ex, cutoff=Ec), "error (lambda > 2d)", dict(value=tx, error=ex))
+                qx, eq = L.call("Q_scattering_amplitude", cp, Ex, h, k, l, 1.0)
+                if eq is None or qx != 0.0:
+                    return ("q:no-reflection-noerror", dict(case, E=Ex, cutoff=Ec), "error", dict(value=qx, error=eq))
+            else:
+                if ex is not None or not math.isfinite(tx) or abs(2 * d * math.sin(tx) - lx) > 1e-9 * lx:
+                    return ("bragg:law", dict(case, E=Ex, cutoff=Ec), lx, dict(value=tx, error=ex))
+            st.cls("cutoff_bracketing")
     th, err = L.call("Bragg_angle", cp, E, h, k, l)
     if E <= 0:
         if err is None or th != 0.0:
